@@ -53,6 +53,7 @@ type c14frame struct {
 }
 
 type c14reader struct {
+	hold   chan struct{} // when set: every reply waits until this channel is closed
 	mu     sync.Mutex
 	frames []c14frame
 	setup  []c14frame // frames seen before `armed`
@@ -122,6 +123,9 @@ func (r *c14reader) serve(conn net.Conn) {
 		ver := f.ver
 		if f.typ == 46 {
 			ver = 1
+		}
+		if r.hold != nil {
+			<-r.hold
 		}
 		if _, err := conn.Write(append(c14header(ver, at, len(ap), f.id), ap...)); err != nil {
 			return
@@ -628,10 +632,77 @@ func c14newEnv(t *testing.T, o *vout) *c14env {
 	return &c14env{d: d, rd: rd, dev: "vdev", p: protocolMap{}, o: o, n: map[string]int{}}
 }
 
+// c14twoReaders: the same resource read on two devices at overlapping times: each command results in its own LLRP
+// request to its own reader (a read is never answered from another device's exchange)
+func c14twoReaders(t *testing.T, o *vout) {
+	lc := logger.MockLogger{}
+	async := make(chan *dsModels.AsyncValues, 16)
+	go func() {
+		for range async {
+		}
+	}()
+	d := &Driver{lc: lc, activeDevices: map[string]*LLRPDevice{}, asyncCh: async}
+	rds := map[string]*c14reader{}
+	hold := make(chan struct{})
+	for _, name := range []string{"vdevA", "vdevB"} {
+		rd := &c14reader{armed: true}
+		if name == "vdevA" {
+			rd.hold = hold
+		}
+		cConn, rConn := net.Pipe()
+		go rd.serve(rConn)
+		client := llrp.NewClient(llrp.WithVersion(llrp.Version1_0_1), llrp.WithLogger(nil), llrp.WithTimeout(30*time.Second))
+		go func() { _ = client.Connect(cConn) }()
+		t.Cleanup(func() { _ = client.Close(); _ = rConn.Close() })
+		d.activeDevices[name] = &LLRPDevice{name: name, client: client, lc: lc, ch: async}
+		rds[name] = rd
+	}
+	for _, res := range []string{ResourceReaderCap, ResourceReaderConfig, ResourceROSpec} {
+		reqs := []dsModels.CommandRequest{{DeviceResourceName: res, Type: common.ValueTypeObject}}
+		doneA := make(chan error, 1)
+		go func() { _, err := d.HandleReadCommands("vdevA", protocolMap{}, reqs); doneA <- err }()
+		// wait until A's request is at its reader (which holds the reply back)
+		for t0 := time.Now(); time.Since(t0) < 2*time.Second; time.Sleep(time.Millisecond) {
+			rds["vdevA"].mu.Lock()
+			n := len(rds["vdevA"].frames)
+			rds["vdevA"].mu.Unlock()
+			if n > 0 {
+				break
+			}
+		}
+		doneB := make(chan error, 1)
+		go func() { _, err := d.HandleReadCommands("vdevB", protocolMap{}, reqs); doneB <- err }()
+		var errB error
+		select {
+		case errB = <-doneB:
+		case <-time.After(1500 * time.Millisecond):
+			errB = fmt.Errorf("timeout")
+		}
+		nb := len(rds["vdevB"].take())
+		// release A
+		select {
+		case hold <- struct{}{}:
+		case <-time.After(2 * time.Second):
+		}
+		select {
+		case <-doneA:
+		case <-time.After(3 * time.Second):
+		}
+		na := len(rds["vdevA"].take())
+		okB := byte(0)
+		if errB == nil {
+			okB = 1
+		}
+		// expected: B's read succeeded with exactly one request at B's reader, and A's reader saw exactly one request
+		o.line(fmt.Sprintf("same x010101 x%02x%02x%02x", okB, nb, na), "yes")
+	}
+}
+
 func TestVerifC14(t *testing.T) {
 	o := vopen(t)
 	defer o.close()
 	rng := &vrng{s: vseed()}
+	c14twoReaders(t, o)
 	e := c14newEnv(t, o)
 	thorough := vthorough()
 
